@@ -1,6 +1,193 @@
-(** C15 — pinned statements. *)
-From TU Require Import Base C15_Model C15_Proofs.
+(** C15 — pinned statements. Nothing but statements, [exact], assumption audits and examples.
 
-Theorem ctx_total_ins : forall t w i, ins_ctx t w i <> Overflow.
-Proof. exact ins_ctx_total. Qed.
-Print Assumptions ctx_total_ins.
+    Vocabulary (C15_Model.v): a word is a list of clusters; [outcomes c cd cs w ex] is the
+    set of (word, exclusion set) pairs one [edit_word] call can return over all rng values
+    ([None] = a provider faulted); an [ed] names one edit; [valid_ed c w ex k] says that
+    [k] is of an enabled kind, in range, drawn from the context entry of its position, and
+    consumes no excluded position; [apply_word]/[apply_excl] perform it; [shift_of k] is the
+    re-indexing of old positions, [old_pos k] the old positions the edit consumed,
+    [new_pos k] the new positions it wrote. Exclusion sets are lists read as sets. *)
+From TU Require Import Base C15_Model C15_Proofs C15_Apply C15_Check.
+From Coq Require Import Lia.
+
+(** one_edit: every outcome is the word with at most one valid edit applied, and the
+    exclusion set that edit induces ... *)
+Theorem one_edit : forall c cd cs w ex l o,
+  outcomes c cd cs w ex = Some l -> In o l ->
+  exists k, valid_ed c w ex k /\ o = (apply_word k w, apply_excl k ex).
+Proof. exact outcomes_In. Qed.
+Print Assumptions one_edit.
+
+(** ... where applying a valid edit is literally: nothing / one inserted table string /
+    one deleted character / one character replaced by a table string / one adjacent swap *)
+Theorem edit_shape : forall c w ex k,
+  valid_ed c w ex k ->
+  match k with
+  | ESame => apply_word k w = w
+  | EIns i e => exists a b, w = a ++ b /\ length a = i /\ apply_word k w = a ++ e ++ b
+  | EDel i => exists a x b, w = a ++ x :: b /\ length a = i /\ apply_word k w = a ++ b
+  | ERep i e => exists a x b, w = a ++ x :: b /\ length a = i /\ apply_word k w = a ++ e ++ b
+  | ESwap i => exists a x y b, w = a ++ x :: y :: b /\ length a = i /\ apply_word k w = a ++ y :: x :: b
+  end.
+Proof. exact edit_shape_l. Qed.
+Print Assumptions edit_shape.
+
+(** excluded_untouched: a protected position is not consumed by the edit, its character
+    reappears unchanged at the re-indexed position, that position was not written by the
+    edit and is protected again *)
+Theorem excluded_untouched : forall c w ex k p,
+  valid_ed c w ex k -> In p ex -> p < length w ->
+  ~ In p (old_pos k) /\
+  nth_error (apply_word k w) (shift_of k p) = nth_error w p /\
+  ~ In (shift_of k p) (new_pos k) /\
+  In (shift_of k p) (apply_excl k ex).
+Proof. exact excluded_untouched_l. Qed.
+Print Assumptions excluded_untouched.
+
+(** more generally every character the edit did not consume is kept, in order *)
+Theorem unedited_kept : forall c w ex k p,
+  valid_ed c w ex k -> p < length w -> ~ In p (old_pos k) ->
+  nth_error (apply_word k w) (shift_of k p) = nth_error w p.
+Proof. exact untouched_l. Qed.
+Print Assumptions unedited_kept.
+
+(** and the written positions hold exactly the edit material *)
+Theorem edit_written : forall c w ex k,
+  valid_ed c w ex k ->
+  match k with
+  | ESame | EDel _ => True
+  | EIns i e | ERep i e => forall j, j < length e -> nth_error (apply_word k w) (i + j) = nth_error e j
+  | ESwap i => nth_error (apply_word k w) i = nth_error w (S i) /\
+               nth_error (apply_word k w) (S i) = nth_error w i
+  end.
+Proof. exact written_l. Qed.
+Print Assumptions edit_written.
+
+(** excl_reindexed: new set = image of the old set under the shift ∪ written positions;
+    it stays inside the new word; the new length is the old one adjusted by the edit *)
+Theorem excl_reindexed : forall c w ex k,
+  valid_ed c w ex k ->
+  (forall x, In x (apply_excl k ex) <-> (exists p, In p ex /\ x = shift_of k p) \/ In x (new_pos k)) /\
+  (in_range w ex -> in_range (apply_word k w) (apply_excl k ex)) /\
+  len_spec k (length w) (length (apply_word k w)).
+Proof. exact excl_reindexed_l. Qed.
+Print Assumptions excl_reindexed.
+
+(** ctx_total: the repaired providers never produce the overflow value, at any index
+    (also beyond the word); ReplaceEdits faults only by its own [expect] on the empty word *)
+Theorem ctx_total : forall t r w i,
+  ins_ctx t w i <> Overflow /\ ins_ctx t w i <> EmptyWord /\
+  rep_ctx r w i <> Overflow /\ (w <> [] -> rep_ctx r w i <> EmptyWord).
+Proof. exact ctx_total_l. Qed.
+Print Assumptions ctx_total.
+
+(** hence a call of the repaired [edit_word] never faults, for any configuration *)
+Theorem outcomes_total : forall c cd cs w ex, exists l, outcomes c cd cs w ex = Some l.
+Proof. exact outcomes_total_l. Qed.
+Print Assumptions outcomes_total.
+
+(** ctx_pinned_overflow: the arithmetic of the pinned commit ([cs.get(idx - 1)] on usize)
+    overflows at index 0, for every table and word (defect D7) ... *)
+Theorem ctx_pinned_overflow : forall t r w,
+  ins_ctx_pinned t w 0 = Overflow /\ rep_ctx_pinned r w 0 = Overflow.
+Proof. exact ctx_pinned_overflow_l. Qed.
+Print Assumptions ctx_pinned_overflow.
+
+(** ... so the pinned [edit_word] can fault whenever position 0 is not excluded and insert is
+    enabled, or replace is enabled on a non-empty word *)
+Theorem pinned_call_faults : forall c cd cs w ex,
+  ~ In 0 ex -> (k_ins c = true \/ (k_rep c = true /\ w <> [])) -> choices_pinned c cd cs w ex = None.
+Proof. exact choices_pinned_fault_l. Qed.
+Print Assumptions pinned_call_faults.
+
+(** ... while away from index 0 the pinned and the repaired lookups agree (the repair changes nothing else) *)
+Theorem pinned_agrees_elsewhere : forall t r w i,
+  0 < i ->
+  (w <> [] -> ins_ctx_pinned t w i = ins_ctx t w i) /\
+  (1 < length w -> rep_ctx_pinned r w i = rep_ctx r w i).
+Proof. exact pinned_agrees_elsewhere_l. Qed.
+Print Assumptions pinned_agrees_elsewhere.
+
+(** chain_inv: "exclusion set inside the word" survives any number of chained calls,
+    whatever the per-position predicates of the intermediate words are *)
+Theorem chain_inv : forall c n s s',
+  chain c n s s' -> in_range (fst s) (snd s) -> in_range (fst s') (snd s').
+Proof. exact chain_inv_l. Qed.
+Print Assumptions chain_inv.
+
+(** check_run: the executable statement evaluated on implementation outputs holds of every
+    output whose provider probe equals the model's and whose chain results are elements of
+    the model's outcome sets (no premise on the input needed) *)
+Theorem check_run : forall v out, agree_C15 true v out = true -> check_C15 v out = true.
+Proof. exact check_run_l. Qed.
+Print Assumptions check_run.
+
+(** the cluster-level membership implies the text-level membership the runner uses *)
+Theorem agree_strict_weak : forall v out, agree_C15 true v out = true -> agree_C15 false v out = true.
+Proof. exact agree_strict_weak. Qed.
+Print Assumptions agree_strict_weak.
+
+(** * Non-vacuity *)
+Definition c_ex : cfg :=
+  {| k_ins := true; k_del := true; k_rep := true; k_swap := true; full_del := false;
+     itab := [(bow, [97]%N, [([[120]%N], true); ([], true)]);
+              ([98]%N, eow, [([[121]%N; [122]%N], true); ([[113]%N], false)])];
+     rtab := [(bow, [97]%N, [98]%N, [([[113]%N], true)]); ([97]%N, [98]%N, eow, [([], true)])] |}.
+
+(** "ab", position 1 protected: insert "x" at 0 under the <bow> context, delete 'a',
+    replace 'a' by "q" under (<bow>, a, b); no swap, no edit next to or at position 1 *)
+Example outcomes_witness :
+  outcomes c_ex [true; true] [true] [[97]; [98]]%N [1] =
+  Some [ ([[120]; [97]; [98]]%N, [2; 0]); ([[97]; [98]]%N, [1]);
+         ([[98]]%N, [0]); ([[113]; [98]]%N, [1; 0]); ([[97]; [98]]%N, [1]) ].
+Proof. vm_compute. reflexivity. Qed.
+
+(** the same call on the pinned code can fault *)
+Example pinned_witness : outcomes_pinned c_ex [true; true] [true] [[97]; [98]]%N [1] = None.
+Proof. vm_compute. reflexivity. Qed.
+
+(** valid edits of every kind, incl. a two-cluster insertion under the <eow> context and an
+    empty replacement *)
+Example valid_witness :
+  valid_ed c_ex [[97]; [98]]%N [] (EIns 0 [[120]%N]) /\
+  valid_ed c_ex [[97]; [98]]%N [] (EIns 2 [[121]; [122]]%N) /\
+  valid_ed c_ex [[97]; [98]]%N [0] (EDel 1) /\
+  valid_ed c_ex [[97]; [98]]%N [0] (ERep 1 []) /\
+  valid_ed c_ex [[97]; [98]]%N [] (ESwap 0).
+Proof.
+  assert (N0 : forall i : nat, ~ In i []) by (intros i []).
+  assert (N1 : ~ In 1 [0]) by (intros [H|[]]; discriminate H).
+  split; [|split; [|split; [|split]]]; cbn [valid_ed].
+  - split; [reflexivity|]. split; [cbn; lia|]. split; [apply N0|]. split; [intros _; apply N0|].
+    eexists. split; [vm_compute; reflexivity | left; reflexivity].
+  - split; [reflexivity|]. split; [cbn; lia|]. split; [apply N0|]. split; [intros _; apply N0|].
+    eexists. split; [vm_compute; reflexivity | left; reflexivity].
+  - split; [reflexivity|]. split; [cbn; lia | exact N1].
+  - split; [reflexivity|]. split; [cbn; lia|]. split; [exact N1|].
+    eexists _, _. split; [reflexivity|]. split; [vm_compute; reflexivity | left; reflexivity].
+  - split; [reflexivity|]. split; [cbn; lia|]. split; apply N0.
+Qed.
+
+(** a chain of two calls: insert "x" at the start, then delete 'b' (position 2 after the shift) *)
+Example chain_witness :
+  chain c_ex 2 ([[97]; [98]]%N, []) ([[120]; [97]]%N, [0]) /\ in_range [[97]; [98]]%N [].
+Proof.
+  split; [|constructor].
+  eapply chain_S with (cd := [true; true]) (cs := [true]) (o := ([[120]; [97]; [98]]%N, [0])).
+  - vm_compute. reflexivity.
+  - left. reflexivity.
+  - eapply chain_S with (cd := [true; true; true]) (cs := [true; true]) (o := ([[120]; [97]]%N, [0])).
+    + vm_compute. reflexivity.
+    + vm_compute. tauto.
+    + apply chain_0.
+Qed.
+
+(** an output in the model's outcome sets, as the harness would print it *)
+Example agree_witness :
+  agree_C15 true
+    (L [I 0; L [I 1; I 1; I 0; I 0]; I 0; I 0;
+        L [L [L [I 60; I 98; I 111; I 119; I 62]; L [I 97]; L [L [L [L [I 120]]; I 1]]]]; L [];
+        I 7; L [L [L [L [I 97]; L [I 98]]; L [I 1]; L [I 1; I 1]; L [I 1]]]])
+    (L [L [L [L [L [L [L [I 120]; I 1]]]; L []]; L [L []; L []]; L [L []; L []]; L [L []; L []]];
+        L [L [L [L [I 120]; L [I 97]; L [I 98]]; L [I 0; I 2]]]]) = true.
+Proof. vm_compute. reflexivity. Qed.
